@@ -9,6 +9,7 @@ for f in glob.glob(f'/verif/replays/{prop}-*.json'):
             if isinstance(o,dict):
                 for k,v in o.items():
                     if isinstance(v,str) and len(v)>80: o[k]='<%d bytes>'%len(v)
+                    elif isinstance(v,list) and len(json.dumps(v))>600: o[k]='<list of %d, %d chars>'%(len(v),len(json.dumps(v)))
                     else: trim(v)
             elif isinstance(o,list):
                 for x in o: trim(x)
